@@ -19,12 +19,12 @@ git apply "$out/patch.diff"
 mv "$demo" "$TMPDIR/demo.go.bak"
 suite=1
 for attempt in 1 2 3 4; do
-  # upstream's TestPreparedStmtConcurrentClose is flaky under machine load (also on the unchanged tree): retry
+  # upstream's TestPreparedStmtConcurrentClose and TestUpdateBelongsTo (timestamp comparison) are flaky under machine load (also on the unchanged tree): retry
   : > "$log.suite"
   (go test -vet=off -count=1 ./... >>"$log.suite" 2>&1 && cd tests && go test -vet=off -count=1 ./... >>"$log.suite" 2>&1); suite=$?
   cat "$log.suite" >> "$log"
   [ $suite -eq 0 ] && break
-  if grep -q "^--- FAIL" "$log.suite" && [ "$(grep "^--- FAIL" "$log.suite" | grep -vc TestPreparedStmtConcurrentClose)" -eq 0 ]; then continue; fi
+  if grep -q "^--- FAIL" "$log.suite" && [ "$(grep "^--- FAIL" "$log.suite" | grep -vcE "TestPreparedStmtConcurrentClose|TestUpdateBelongsTo")" -eq 0 ]; then continue; fi
   break
 done
 rm -f "$log.suite"
